@@ -109,9 +109,10 @@ impl JsValue {
     pub fn div(&self, other: &Self, context: &mut Context) -> JsResult<Self> {
         Ok(match (self.variant(), other.variant()) {
             // Fast path:
+            // NOTE: `0 / -2` is `-0`, which is not an integer.
             (JsVariant::Integer32(x), JsVariant::Integer32(y)) => x
                 .checked_div(y)
-                .filter(|div| y * div == x)
+                .filter(|div| y * div == x && !(x == 0 && y < 0))
                 .map_or_else(|| Self::new(f64::from(x) / f64::from(y)), Self::new),
             (JsVariant::Float64(x), JsVariant::Float64(y)) => Self::new(x / y),
             (JsVariant::Integer32(x), JsVariant::Float64(y)) => Self::new(f64::from(x) / y),
@@ -738,7 +739,7 @@ impl JsValue {
         if let (Some(x), Some(y)) = (self.0.as_integer32(), other.0.as_integer32()) {
             return Some(
                 x.checked_div(y)
-                    .filter(|div| y * div == x)
+                    .filter(|div| y * div == x && !(x == 0 && y < 0))
                     .map_or_else(|| Self::new(f64::from(x) / f64::from(y)), Self::new),
             );
         }
